@@ -5,13 +5,15 @@ import itertools
 
 import enc
 import gen
+import hkspy
 from props.common import load_def, mk_dfa, outcome
 
 RULE = ("random pairs of valid DFAs over a common alphabet (1-6 states, partial/complete mixes, 7 name pools), "
         "plus built pairs: a DFA vs a renamed copy with one deep final flag flipped ('differ on one long word'), "
         "vs itself completed with a trap, vs its sub/superset; the ten comparison answers and isempty/isfinite are "
         "compared exactly with the proved model; == is additionally compared with the mirror model of the code's "
-        "Hopcroft-Karp/union-find loop (two symbol orders and tie-breaks). distinct = distinct canonical (A, B); non-trivial = both "
+        "Hopcroft-Karp/union-find loop (two symbol orders and tie-breaks), and the sequence of union calls observed by a "
+        "spy on networkx's UnionFind is compared with the mirror model run under the observed schedule. distinct = distinct canonical (A, B); non-trivial = both "
         "languages non-empty and the pair is not literally identical")
 
 NAMES = ["eq", "ne", "le", "lt", "ge", "gt", "issubset", "issuperset", "isdisjoint"]
@@ -33,6 +35,32 @@ def confirm(a, b, name, sy, word):
     return {"word": s, "A_accepts": a.accepts_input(s), "B_accepts": b.accepts_input(s)}
 
 
+def hk_trace_problems(ctx, a, b, ta, tb, sy, eq_outcome):
+    if a.input_symbols != b.input_symbols:
+        return []
+    sta, stb = enc.Renum(enc.dfa_names(a)), enc.Renum(enc.dfa_names(b))
+
+    def el(e):
+        q, idx = e
+        return [idx, [] if q is None else [(sta, stb)[idx](q)]]
+
+    got, rec = hkspy.observe_eq(a, b)
+    order = [sy(c) for c in a.input_symbols]
+    ties = [[el(x), el(y)] for x, y in rec.first_wins]
+    m_res, m_log = ctx.driver.batch([(6, 4, enc.tree([ta, tb, order, ties]))])[0]
+    m_res = enc.dec_res(m_res)
+    want = ("ok", m_res[1] == 1) if m_res[0] == "ok" else ("err", m_res[1])
+    calls = [[el(x), el(y)] for x, y in rec.calls]
+    out = []
+    if got[:2] != want or got[:2] != eq_outcome[:2]:
+        out.append(f"eq under the observed schedule: impl {got} (unobserved run {eq_outcome}) mirror model {want}")
+    if calls != m_log:
+        out.append(f"union-find calls differ from the mirror model's: impl {calls} model {m_log}")
+    ctx.tally("hk_trace_compared")
+    ctx.tally(f"hk_unions_{min(len(calls), 6)}{'+' if len(calls) >= 6 else ''}")
+    return out
+
+
 def check_pair(ctx, adef, bdef, tag):
     a, b = mk_dfa(adef), mk_dfa(bdef)
     sy = enc.SymMap(a.input_symbols | b.input_symbols)
@@ -47,6 +75,9 @@ def check_pair(ctx, adef, bdef, tag):
         if got[0][:2] != want:
             problems.append(f"eq: impl {got[0]} Hopcroft-Karp mirror model ({sched}) {want}")
     ctx.tally("hk_mirror_compared")
+    # the run of the loop itself: the union calls seen by a spy on networkx's UnionFind against the mirror model
+    # driven by the schedule the implementation actually used (symbol iteration order, tie-breaks)
+    problems += hk_trace_problems(ctx, a, b, ta, tb, sy, got[0])
     for name, g, m in zip(NAMES, got, ans):
         m = enc.dec_res(m)
         want = ("ok", m[1] == 1) if m[0] == "ok" else ("err", m[1])
